@@ -132,7 +132,17 @@ def run(out, tier, seed):
                         fixed.append(o)
                 ops = fixed
             cases.append({"id": len(cases), "place": pl, "src": "random", "ops": ops})
-    traces = L.run_histories(cases, work, driver="harness.drivers.ref_driver", par=6)
+    cap = 2500 if tier == "quick" else 12000
+    if len(cases) > cap:
+        # every case loads a fresh copy of the reference world: the number replayed is bounded (TLC has all of them on the model)
+        out.extra["cases_enumerated"] = len(cases)
+        keep = [c for c in cases if c["src"].startswith("witness")]
+        rest = [c for c in cases if not c["src"].startswith("witness")]
+        cases = keep + rng.sample(rest, cap - len(keep))
+        for i, c in enumerate(cases):
+            c["id"] = i
+    # few cases per interpreter: codefind's registry keeps every module copy alive, resolving gets slower as the heap grows
+    traces = L.run_histories(cases, work, driver="harness.drivers.ref_driver", par=14, maxchunk=250)
     fails, results = L.validate(traces, work, spec="TraceRefs", par=8)
     for i, rr in enumerate(results):
         out.add_tlc(f"TraceRefs[{i}]", rr)
